@@ -561,73 +561,91 @@ struct StreamVisitor<'a> {
     status: String,
 }
 
+fn make_info<I: Object + ValueSide>(prim: &Primitive, objs: &HashMap<u64, Primitive>, clear: bool) -> std::result::Result<I, String> {
+    let r1 = MemResolver::new(objs.clone(), HashMap::new(), false);
+    let mut info = I::from_primitive(prim.clone(), &r1).map_err(|e| format!("{}", e))?;
+    if clear && info.other_dict().is_some() {
+        info.set_other(Dictionary::new());
+    }
+    Ok(info)
+}
+
+/// the typed stream (possibly inside a wrapper type `W`) built in memory, written, read back, compared
+fn stream_round<I: Object + ObjectWrite + ValueSide, W: Object + ObjectWrite>(
+    info: I,
+    c: &ChainCase,
+    objs: &HashMap<u64, Primitive>,
+    wrap: impl FnOnce(Stream<I>) -> W,
+    inner: impl Fn(&W) -> &Stream<I>,
+) -> (String, Vec<(String, String)>) {
+    let mut fails: Vec<(String, String)> = vec![];
+    let r1 = MemResolver::new(objs.clone(), HashMap::new(), false);
+    let info_fields = info.fields_debug();
+    let filters_txt = format!("{:?}", c.filters);
+    let x: Stream<I> = Stream::new_with_filters(info, c.encoded.clone(), c.filters.clone());
+    if let Some(raw) = &c.raw {
+        match x.data(&r1) {
+            Ok(d) if &d[..] == &raw[..] => {}
+            Ok(d) => return ("generator".into(), vec![("generator:encoded-data-decodes-differently".into(), format!("the original value decodes to {} bytes, not the {} bytes that were encoded", d.len(), raw.len()))]),
+            Err(e) => return ("generator".into(), vec![("generator:encoded-data-does-not-decode".into(), format!("{}", e))]),
+        }
+    }
+    let w = wrap(x);
+    let mut up = RecUpdater::new(CREATED_BASE);
+    let p1 = match w.to_primitive(&mut up) {
+        Ok(p) => p,
+        Err(e) => return ("werr".into(), vec![("write-fails".into(), format!("{}", e))]),
+    };
+    let dict_txt = match &p1 {
+        Primitive::Stream(s) => show_plain(&Primitive::Dictionary(s.info.clone())),
+        q => return ("not-a-stream".into(), vec![("not-a-stream".into(), format!("written as {}", q.get_debug_name()))]),
+    };
+    let mut objs2 = objs.clone();
+    for (i, q) in &up.objs {
+        objs2.insert(*i, q.clone());
+    }
+    let r2 = MemResolver::new(objs2, HashMap::new(), false);
+    let w2 = match W::from_primitive(p1, &r2) {
+        Ok(x) => x,
+        Err(e) => return ("rerr2".into(), vec![("read-back-fails".into(), format!("{} — written dictionary {}", e, trunc(&dict_txt)))]),
+    };
+    let x2 = inner(&w2);
+    let f2 = format!("{:?}", x2.info.filters);
+    if f2 != filters_txt {
+        fails.push(("filters-changed".into(), format!("filters of the value {} but {} after write + read (written dictionary {})", trunc(&filters_txt), trunc(&f2), trunc(&dict_txt))));
+    }
+    match (&c.raw, x2.data(&r2)) {
+        (Some(raw), Ok(d)) => {
+            if &d[..] != &raw[..] {
+                fails.push(("decoded-data-changed".into(), format!("the re-read stream decodes to {} bytes that differ from the original {} bytes (written dictionary {})", d.len(), raw.len(), trunc(&dict_txt))));
+            }
+        }
+        (Some(_), Err(e)) => fails.push(("decoded-data-changed".into(), format!("the re-read stream does not decode: {} (written dictionary {})", e, trunc(&dict_txt)))),
+        (None, _) => {}
+    }
+    for ((f, key, a), (_, _, bb)) in info_fields.iter().zip(x2.info.info.fields_debug().iter()) {
+        if !debug_same(a, bb) {
+            fails.push((format!("field-changed:{}", f), format!("field `{}` (/{}) of the stream dictionary is {} but {} after write + read", f, key, trunc(a), trunc(bb))));
+        }
+    }
+    if let Some(o) = x2.info.info.other_dict() {
+        for k in ["Length", "Filter", "DecodeParms"] {
+            if o.get(k).is_some() {
+                fails.push((format!("stream-key-in-catch-all:{}", k), format!("/{} ends up in the catch-all of the stream dictionary", k)));
+            }
+        }
+    }
+    ("ok".to_string(), fails)
+}
+
 impl<'a> StreamInfoVisitor for StreamVisitor<'a> {
     fn stream_info<I: Object + ObjectWrite + ValueSide + 'static>(&mut self, _name: &str) {
         let r = std::panic::catch_unwind(std::panic::AssertUnwindSafe(|| {
-            let mut fails: Vec<(String, String)> = vec![];
-            let r1 = MemResolver::new(self.objs.clone(), HashMap::new(), false);
-            let mut info = match I::from_primitive(self.info_prim.clone(), &r1) {
+            let info = match make_info::<I>(self.info_prim, self.objs, self.clear) {
                 Ok(i) => i,
-                Err(e) => return ("info-refused".to_string(), vec![("generator:info-refused".into(), format!("{}", e))]),
+                Err(e) => return ("info-refused".to_string(), vec![("generator:info-refused".into(), e)]),
             };
-            if self.clear && info.other_dict().is_some() {
-                info.set_other(Dictionary::new());
-            }
-            let info_fields = info.fields_debug();
-            let c = self.case;
-            let filters_txt = format!("{:?}", c.filters);
-            let x: Stream<I> = Stream::new_with_filters(info, c.encoded.clone(), c.filters.clone());
-            if let Some(raw) = &c.raw {
-                match x.data(&r1) {
-                    Ok(d) if &d[..] == &raw[..] => {}
-                    Ok(d) => return ("generator".into(), vec![("generator:encoded-data-decodes-differently".into(), format!("the original value decodes to {} bytes, not the {} bytes that were encoded", d.len(), raw.len()))]),
-                    Err(e) => return ("generator".into(), vec![("generator:encoded-data-does-not-decode".into(), format!("{}", e))]),
-                }
-            }
-            let mut up = RecUpdater::new(CREATED_BASE);
-            let p1 = match x.to_primitive(&mut up) {
-                Ok(p) => p,
-                Err(e) => return ("werr".into(), vec![("write-fails".into(), format!("{}", e))]),
-            };
-            let dict_txt = match &p1 {
-                Primitive::Stream(s) => show_plain(&Primitive::Dictionary(s.info.clone())),
-                q => return ("not-a-stream".into(), vec![("not-a-stream".into(), format!("written as {}", q.get_debug_name()))]),
-            };
-            let mut objs2 = self.objs.clone();
-            for (i, q) in &up.objs {
-                objs2.insert(*i, q.clone());
-            }
-            let r2 = MemResolver::new(objs2, HashMap::new(), false);
-            let x2 = match Stream::<I>::from_primitive(p1, &r2) {
-                Ok(x) => x,
-                Err(e) => return ("rerr2".into(), vec![("read-back-fails".into(), format!("{} — written dictionary {}", e, trunc(&dict_txt)))]),
-            };
-            let f2 = format!("{:?}", x2.info.filters);
-            if f2 != filters_txt {
-                fails.push(("filters-changed".into(), format!("filters of the value {} but {} after write + read (written dictionary {})", trunc(&filters_txt), trunc(&f2), trunc(&dict_txt))));
-            }
-            match (&c.raw, x2.data(&r2)) {
-                (Some(raw), Ok(d)) => {
-                    if &d[..] != &raw[..] {
-                        fails.push(("decoded-data-changed".into(), format!("the re-read stream decodes to {} bytes that differ from the original {} bytes (written dictionary {})", d.len(), raw.len(), trunc(&dict_txt))));
-                    }
-                }
-                (Some(_), Err(e)) => fails.push(("decoded-data-changed".into(), format!("the re-read stream does not decode: {} (written dictionary {})", e, trunc(&dict_txt)))),
-                (None, _) => {}
-            }
-            for ((f, key, a), (_, _, bb)) in info_fields.iter().zip(x2.info.info.fields_debug().iter()) {
-                if !debug_same(a, bb) {
-                    fails.push((format!("field-changed:{}", f), format!("field `{}` (/{}) of the stream dictionary is {} but {} after write + read", f, key, trunc(a), trunc(bb))));
-                }
-            }
-            if let Some(o) = x2.info.info.other_dict() {
-                for k in ["Length", "Filter", "DecodeParms"] {
-                    if o.get(k).is_some() {
-                        fails.push((format!("stream-key-in-catch-all:{}", k), format!("/{} ends up in the catch-all of the stream dictionary", k)));
-                    }
-                }
-            }
-            ("ok".to_string(), fails)
+            stream_round::<I, Stream<I>>(info, self.case, self.objs, |s| s, |w| w)
         }));
         match r {
             Ok((s, f)) => {
@@ -641,6 +659,36 @@ impl<'a> StreamInfoVisitor for StreamVisitor<'a> {
         }
     }
 }
+
+/// the hand-written wrappers around typed streams: `ImageXObject`, `FormXObject` and the three variants of `XObject`
+fn wrapper_round(which: &str, info_prim: &Primitive, objs: &HashMap<u64, Primitive>, c: &ChainCase, clear: bool) -> (String, Vec<(String, String)>) {
+    use pdf::content::FormXObject;
+    let r = std::panic::catch_unwind(std::panic::AssertUnwindSafe(|| -> std::result::Result<(String, Vec<(String, String)>), String> {
+        Ok(match which {
+            "ImageXObject" => stream_round(make_info::<ImageDict>(info_prim, objs, clear)?, c, objs, |s| ImageXObject { inner: s }, |w| &w.inner),
+            "FormXObject" => stream_round(make_info::<FormDict>(info_prim, objs, clear)?, c, objs, |s| FormXObject { stream: s }, |w| &w.stream),
+            "XObject::Image" => stream_round(make_info::<ImageDict>(info_prim, objs, clear)?, c, objs, |s| XObject::Image(ImageXObject { inner: s }), |w| match w {
+                XObject::Image(i) => &i.inner,
+                _ => panic!("variant changed"),
+            }),
+            "XObject::Form" => stream_round(make_info::<FormDict>(info_prim, objs, clear)?, c, objs, |s| XObject::Form(FormXObject { stream: s }), |w| match w {
+                XObject::Form(i) => &i.stream,
+                _ => panic!("variant changed"),
+            }),
+            _ => stream_round(make_info::<PostScriptDict>(info_prim, objs, clear)?, c, objs, XObject::Postscript, |w| match w {
+                XObject::Postscript(i) => i,
+                _ => panic!("variant changed"),
+            }),
+        })
+    }));
+    match r {
+        Ok(Ok(x)) => x,
+        Ok(Err(e)) => ("info-refused".into(), vec![("generator:info-refused".into(), e)]),
+        Err(_) => ("panic".into(), vec![("panic".into(), "panic (or the variant of the XObject changed)".into())]),
+    }
+}
+
+const WRAPPERS: &[(&str, &str)] = &[("ImageXObject", "ImageDict"), ("FormXObject", "FormDict"), ("XObject::Image", "ImageDict"), ("XObject::Form", "FormDict"), ("XObject::Postscript", "PostScriptDict")];
 
 pub fn oracle_stream_values(schemas: &[SchemaJ], seed: u64, thorough: bool) -> Oracle {
     let mut or = Oracle::new("c15.stream-values");
@@ -692,6 +740,37 @@ pub fn oracle_stream_values(schemas: &[SchemaJ], seed: u64, thorough: bool) -> O
                 for (sig, what) in &v.failures {
                     let sig_full = if sig.starts_with("generator:") { format!("{}:{}", sig, info_name) } else { format!("stream-value:{}:{}", info_name, sig) };
                     or.fail(&sig_full, &format!("{}: {}", desc, what), json!({"oracle": "c15.stream-values", "seed": seed, "info": info_name, "chain": case.desc, "subset": subset, "dictionary": show_plain(&info_prim)}));
+                }
+            }
+        }
+    }
+    // the wrappers, on the chains with at most two members
+    for (which, info_name) in WRAPPERS {
+        let Some(sc) = schemas.iter().find(|s| s.name == *info_name) else {
+            or.count(&format!("wrapper-without-schema={}", which));
+            continue;
+        };
+        for (ci, chain) in all.iter().enumerate().filter(|(_, c)| c.len() <= 2) {
+            if !thorough && chain.len() == 2 && (ci + which.len()) % 2 != 0 {
+                continue;
+            }
+            let np = chain.iter().filter(|k| k.parameterised()).count() as u32;
+            for subset in 0..(1u32 << np) {
+                let mut rng = Rng::derive(seed, &format!("c15.stream-values/{}/{}", which, ci), subset as u64);
+                let n = 1 + rng.usize(24);
+                let raw: Vec<u8> = (0..n).map(|_| rng.below(256) as u8).collect();
+                let Some(case) = chain_case(chain, subset, &raw) else { continue };
+                let mut g = Gen::new(schemas, false);
+                g.always_tags = true;
+                let Some(info_prim) = g.model_value(&mut rng, sc, None, if subset % 2 == 0 { 0 } else { 2 }) else { break };
+                let (status, failures) = wrapper_round(which, &info_prim, &g.objs, &case, ci % 2 == 0);
+                let desc = format!("{} {}", which, case.desc);
+                or.count(&format!("wrapper={}", which));
+                or.count(&format!("outcome={}", status));
+                or.case(&format!("{} {} {}", desc, hex(&raw), show_plain(&info_prim)), true, || json!({"stream": desc, "status": status}));
+                for (sig, what) in &failures {
+                    let sig_full = if sig.starts_with("generator:") { format!("{}:{}", sig, which) } else { format!("stream-value:{}:{}", which, sig) };
+                    or.fail(&sig_full, &format!("{}: {}", desc, what), json!({"oracle": "c15.stream-values", "seed": seed, "wrapper": which, "chain": case.desc, "subset": subset, "dictionary": show_plain(&info_prim)}));
                 }
             }
         }
